@@ -75,6 +75,20 @@ partial def ys? : Sexp → Option Ys
       | .list [k, v] => do some ((← k.nat?), (← ys? v))
       | _ => none
     some (.dict (ps.map (·.1)) (toYsL (ps.map (·.2))))
+  -- an instance of a SUBCLASS of tuple / list / dict with the same content
+  | .list (.atom "tupS" :: l) => (l.mapM ys?).map (fun x => .sub (.tup (toYsL x)))
+  | .list (.atom "lstS" :: l) => (l.mapM ys?).map (fun x => .sub (.lst (toYsL x)))
+  | .list (.atom "dictS" :: l) => do
+    let ps ← l.mapM fun
+      | .list [k, v] => do some ((← k.nat?), (← ys? v))
+      | _ => none
+    some (.sub (.dict (ps.map (·.1)) (toYsL (ps.map (·.2)))))
+  -- an @async_proxy() function returning None or a container (of futures) instead of one future
+  | .list [.atom "pval", y] => do
+    let y' ← ys? y
+    match y' with
+    | .none | .tup _ | .lst _ | .dict _ _ | .sub _ => some (.pval y')
+    | _ => none
   | _ => none
 end
 
@@ -102,11 +116,10 @@ def obs? : Sexp → Option Obs
            log := evs.map ev }
   | _ => none
 
-/-- per-task projection of a log: stable sort by task label (the interleaving of different tasks is the event loop's /
-    the scheduler's business and is not compared) -/
-def canon (l : List Ev) : List Ev := l.mergeSort (fun a b => decide (a.label ≤ b.label))
-
-def canonObs (ob : Obs) : Obs := { ob with log := canon ob.log }
+/-- per-task form of a log: `Asyncio.canonE`, the stable sort by task label (the interleaving of different tasks is the event
+    loop's / the scheduler's business and is not compared).  `diffObs` below reports a difference exactly when
+    `Asyncio.sameView` is false; theorem `C15_spec_respects_correspondence`: then CORR=ok implies SPEC = SPECM. -/
+def canonObs (ob : Obs) : Obs := { ob with log := canonE ob.log }
 
 def convName : Conv → String
   | .call => "call" | .value => "value" | .aio => "aio" | .aiorun => "aiorun" | .aiotask => "aiotask"
@@ -127,9 +140,14 @@ def diffObs (m i : Obs) : Option String :=
   if m.canary != i.canary then some (pre ++ s!"sync call afterwards: model={repr m.canary} impl={repr i.canary}") else
   (diffLog m.log i.log).map (pre ++ ·)
 
+def diffHead (m i : Obs) : Option String :=
+  if m.log.head? != i.log.head? then
+    some (convName m.conv ++ s!": first event: model={repr m.log.head?} impl={repr i.log.head?}")
+  else none
+
 def firstDiff : List Obs → List Obs → Option String
   | [], [] => none
-  | m :: ms, i :: is => match diffObs (canonObs m) (canonObs i) with
+  | m :: ms, i :: is => match (diffObs (canonObs m) (canonObs i)).orElse (fun _ => diffHead m i) with
     | some d => some d
     | none => firstDiff ms is
   | m :: _, [] => some s!"impl lacks {convName m.conv}"
